@@ -66,6 +66,7 @@ func BuildResponse(rec *Response, st Style) (string, error) {
 		if oct, ok := inContext[i]; ok {
 			plain = oct
 		}
+		plain = a.Enc.PlainPrefix + plain
 		x, err := EncryptedAssertionXML(a.Enc, []byte(plain), nil, nil)
 		if err != nil {
 			return "", err
